@@ -304,6 +304,13 @@ def product_cases(family):
             for (h, w, c) in lst:
                 for dt in ("int16", "int8", "uint8"):
                     out.append(dict(family="mean", axes=list(axes), h=h, w=w, c=c, dt=dt))
+    elif family == "lstm":
+        # the UNIDIRECTIONAL_SEQUENCE_LSTM sentences: a well-formed integer LSTM is accelerated; each variant violates exactly one group of sentences and must stay on the CPU,
+        # operands, options and intermediates untouched
+        for toggle in ("none", "none", "peephole", "projection", "normalisation", "cifg", "missing-weight", "recurrent-3d", "four-intermediates", "ifm-4d", "uint8"):
+            for tm in (False, True):
+                for batch in (1, 2):
+                    out.append(dict(family="lstm", toggle=toggle, time_major=tm, batch=batch, cells=[5, 16][batch - 1]))
     elif family == "resize":
         for code in ("RESIZE_BILINEAR", "RESIZE_NEAREST_NEIGHBOR"):
             for (ih, iw) in ((1, 1), (2, 2), (2, 3), (3, 3), (4, 2)):
@@ -365,6 +372,46 @@ def product_spec(p, c):
         ok = p["a"] == p["b"] and (not p["faf"] or p["o"] in ("int16", "int8", "uint8"))
         ok = ok and (not signed(p["a"]) or signed(p["o"])) and (signed(p["a"]) or p["o"] in (p["a"], "int32"))
         return spec, ok, "eltwise"
+    if p["family"] == "lstm":
+        tg, tm, nb, n = p["toggle"], p["time_major"], p["batch"], p["cells"]
+        f, steps = 7, 2
+        dt = "uint8" if tg == "uint8" else "int8"
+        ishape = [steps, nb, f] if tm else [nb, steps, f]
+        oshape = ishape[:-1] + [n]
+        if tg == "ifm-4d":
+            ishape, oshape = [1] + ishape, [1] + oshape
+        ts = [T("input", ishape, dt, 0.05, 128 if dt == "uint8" else 0)]
+        ins = [0]
+
+        def add(t):
+            ts.append(t)
+            return len(ts) - 1
+
+        wshape_r = [1, n, n] if tg == "recurrent-3d" else [n, n]
+        for k in range(4):
+            ins.append(add(T("w_in%d" % k, [n, f], "int8", 0.01, 0, dict(seed=11 + k, lo=-100, hi=100))))
+        for k in range(4):
+            ins.append(add(T("w_re%d" % k, wshape_r, "int8", 0.01, 0, dict(seed=21 + k, lo=-100, hi=100))))
+        for k in range(3):
+            ins.append(add(T("peep%d" % k, [n], "int16", 2.0 ** -12, 0, dict(seed=31 + k, lo=-100, hi=100))) if tg == "peephole" else -1)
+        for k in range(4):
+            ins.append(add(T("bias%d" % k, [n], "int32", 0.0005, 0, dict(seed=41 + k, lo=-500, hi=500))))
+        ins.append(add(T("proj_w", [n, n], "int8", 0.01, 0, dict(seed=51, lo=-100, hi=100))) if tg == "projection" else -1)
+        ins.append(-1)
+        st_dt = dt
+        ins.append(add(dict(T("out_state", [nb, n], st_dt, 0.05, 128 if dt == "uint8" else 0), is_variable=True)))
+        ins.append(add(dict(T("cell_state", [nb, n], "int16", 2.0 ** -11, 0), is_variable=True)))
+        for k in range(4):
+            ins.append(add(T("norm%d" % k, [n], "int16", 2.0 ** -12, 0, dict(seed=61 + k, lo=-100, hi=100))) if tg == "normalisation" else -1)
+        if tg == "cifg":
+            ins[1] = ins[5] = -1
+        if tg == "missing-weight":
+            ins[3] = -1
+        inter = [add(T("im%d" % k, [], "int16", 2.0 ** -12, 0)) for k in range(3 if tg == "four-intermediates" else 4)] + [add(T("hidden", [], dt, 0.05, 128 if dt == "uint8" else 0))]
+        out_i = add(T("output", oshape, dt, 0.05, 128 if dt == "uint8" else 0))
+        op = dict(code="UNIDIRECTIONAL_SEQUENCE_LSTM", inputs=ins, outputs=[out_i], intermediates=inter, version=3,
+                  opts=dict(table="UnidirectionalSequenceLSTMOptions", fields=dict(FusedActivationFunction=4, CellClip=0.0, ProjClip=0.0, TimeMajor=tm, AsymmetricQuantizeInputs=False)))
+        return dict(tensors=ts, ops=[op], inputs=[0], outputs=[out_i]), tg == "none", "lstm"
     if p["family"] == "mean":
         axes, h, w, cc, dt = p["axes"], p["h"], p["w"], p["c"], p["dt"]
         shape = [1, h, w, cc]
@@ -548,6 +595,7 @@ def parts(ctx):
     prods += [Part("product-avgpool%02d" % i, products, ("avgpool", i, 2, 60 if q else 0)) for i in range(2)]
     prods += [Part("product-splitbatch", products, ("splitbatch", 0, 1, 0))]
     prods += [Part("product-mean%02d" % i, products, ("mean", i, 3, 0)) for i in range(3)]
+    prods += [Part("product-lstm%02d" % i, products, ("lstm", i, 2, 0)) for i in range(2)]
     return prods + [Part("grid%02d" % i, grid, (i, 12)) for i in range(12)] + [Part("place%02d" % i, placements, (i, 6 if q else 400)) for i in range(3 if q else 15)] + [Part("publication", publication, None)]
 
 
